@@ -17,6 +17,12 @@ package main
 // (LoggerCid!OperandsUntouched), and every line must end in what the operands, as the application
 // filled them, format to.
 //
+// Messages: the unit judged is the Write call, not the text line. A call's rendered message may be
+// empty, hold interior newlines (written in the format or produced by an operand), end in one or more
+// newlines, hold CR, or be longer than 4 KiB / 64 KiB (LoggerCid!AllShapes): it is still ONE write of
+// label, time, prefix and the whole message. Application objects expose every class of Cid(): 0,
+// negative, 32- and 64-bit extremes; the line must print that integer, the same through both call forms.
+//
 // The id a context carries is not readable through the public API (the key is unexported), so it
 // is read the way an application sees it: after the concurrent phase every context made in the run
 // is logged once through T and once through Tf and the id is parsed from the '[pid][cid]' prefix.
@@ -25,8 +31,10 @@ import (
 	"bytes"
 	"context"
 	"encoding/json"
+	"errors"
 	"fmt"
 	"hash/fnv"
+	"math"
 	"math/rand"
 	"os"
 	"path/filepath"
@@ -63,13 +71,15 @@ type opndT struct {
 }
 
 type runDesc struct {
-	N      int   `json:"n"`
-	Ops    int   `json:"ops"`
-	Mix    mixT  `json:"mix"`
-	Shared int   `json:"shared"`
-	Closer bool  `json:"closer"`
-	Opnd   opndT `json:"opnd"`
-	Caps   []int `json:"caps"` // capacities of the caller-owned operand slices (a window is 1..cap cells)
+	N      int      `json:"n"`
+	Ops    int      `json:"ops"`
+	Mix    mixT     `json:"mix"`
+	Shared int      `json:"shared"`
+	Closer bool     `json:"closer"`
+	Opnd   opndT    `json:"opnd"`
+	Caps   []int    `json:"caps"`   // capacities of the caller-owned operand slices (a window is 1..cap cells)
+	Shapes []string `json:"shapes"` // shapes of rendered messages (LoggerCid!AllShapes)
+	ObjIds []string `json:"objids"` // classes of Cid() values of application objects
 }
 
 // names as in the specification
@@ -128,26 +138,37 @@ type observed struct {
 	Whole bool   `json:"whole"`
 	why   string
 	idx   int
+	cidS  string // the cid as printed ("" = no '[cid]' part)
+}
+
+// call form and message shape (LoggerCid: m)
+type formT struct {
+	Form  string `json:"form"` // ln | f
+	Shape string `json:"shape"`
 }
 
 // one recorded call of a goroutine
 type event struct {
-	kind  string // new | alias | log
-	c     ctxName
-	asrc  argT
-	ctx   context.Context
-	k     int
-	level string
-	fn    string
-	arg   argT
-	token string
-	text  string
-	w     []observed
-	src   srcT
-	buf   *opBuf
-	shr   string // a call without a token of its own: the token of the shared slice it printed
-	after []int  // the caller's slice after the call, abstract cells
-	cap   int    // kind "buf"
+	kind           string // new | alias | log
+	c              ctxName
+	asrc           argT
+	ctx            context.Context
+	k              int
+	level          string
+	fn             string
+	arg            argT
+	token          string
+	text           string
+	w              []observed
+	src            srcT
+	buf            *opBuf
+	shr            string // a call without a token of its own: the token of the shared slice it printed
+	after          []int  // the caller's slice after the call, abstract cells
+	cap            int    // kind "buf"
+	m              formT
+	objID          int  // arg kind obj: the object's Cid() (arg.I is its trace code)
+	pos            bool // a call of the main goroutine while it is alone: the writes posFrom..posTo-1 are its writes
+	posFrom, posTo int
 }
 
 type ctxEntry struct {
@@ -168,6 +189,12 @@ type recWriter struct {
 	writes [][]byte
 }
 
+func (w *recWriter) count() int {
+	w.mu.Lock()
+	defer w.mu.Unlock()
+	return len(w.writes)
+}
+
 func (w *recWriter) Write(p []byte) (int, error) {
 	cp := append([]byte(nil), p...)
 	w.mu.Lock()
@@ -185,48 +212,120 @@ type recWriteCloser struct {
 func (w *recWriteCloser) Close() error { w.closed++; return nil }
 
 var (
-	lineRe   = regexp.MustCompile(`^\[(info|trace|warn|error)\] (\d{4}/\d\d/\d\d) (\d\d:\d\d:\d\d\.\d{6}) (.*)$`)
-	tokRe    = regexp.MustCompile(`(tok|probe):r\d+:g\d+:[ki]\d+(:[ab])?;`)
-	shrRe    = regexp.MustCompile(`shr:r\d+:b\d+;`)
-	anyTokRe = regexp.MustCompile(`(tok|probe):r\d+:g\d+:[ki]\d+(:[ab])?;|shr:r\d+:b\d+;`)
+	headRe   = regexp.MustCompile(`^\[(info|trace|warn|error)\] (\d{4}/\d\d/\d\d) (\d\d:\d\d:\d\d\.\d{6}) `)
+	tokAtRe  = regexp.MustCompile(`^(tok|probe):r\d+:g\d+:[ki]\d+(:[ab])?;`)
+	shrAtRe  = regexp.MustCompile(`^shr:r\d+:b\d+;`)
 	pidCidRe = regexp.MustCompile(`^\[(\d+)\]\[(-?\d+)\] {1,2}$`)
 	pidRe    = regexp.MustCompile(`^\[(\d+)\] {1,2}$`)
+	// before an empty message the separating space is not demanded
+	pidCidRe0 = regexp.MustCompile(`^\[(\d+)\]\[(-?\d+)\] {0,2}$`)
+	pidRe0    = regexp.MustCompile(`^\[(\d+)\] {0,2}$`)
 )
 
-// parseWrite tokenises the bytes of one Write call that contained the message `text`.
+// Cid() values outside 1..2^31-1 (TLC integers are 32-bit, 0 means "no cid part" in the trace): code -(10+k)
+var wideIDs = []int{0, -1, -7, -100, -65536, math.MinInt32, math.MinInt64, math.MaxInt64, math.MaxInt32 + 1, 1 << 40}
+
+// idCode: what stands for a cid in the trace (and in observed.Cid); ok = representable
+func idCode(id int) (int, bool) {
+	if id >= 1 && id <= math.MaxInt32 {
+		return id, true
+	}
+	for k, v := range wideIDs {
+		if v == id {
+			return -(10 + k), true
+		}
+	}
+	return -1, false
+}
+
+// cidCode: the code of a cid as printed; -1 = not the decimal form of any id the run uses
+func cidCode(s string) int {
+	n, err := strconv.ParseInt(s, 10, 64)
+	if err != nil || strconv.FormatInt(n, 10) != s {
+		return -1
+	}
+	c, _ := idCode(int(n))
+	return c
+}
+
+// scanTokens: the tokens in p, left to right (calls' and probes' tokens, tokens of shared slices, or both).
+// Writes may be longer than 64 KiB: the candidates are found by their literal heads.
+func scanTokens(p []byte, calls, shr bool) (toks []string) {
+	for off := 0; off < len(p); {
+		j := bytes.IndexByte(p[off:], ':')
+		if j < 0 {
+			break
+		}
+		j += off
+		off = j + 1
+		for _, h := range []struct {
+			lit string
+			re  *regexp.Regexp
+			on  bool
+		}{{"tok", tokAtRe, calls}, {"probe", tokAtRe, calls}, {"shr", shrAtRe, shr}} {
+			if !h.on || j < len(h.lit) || string(p[j-len(h.lit):j]) != h.lit {
+				continue
+			}
+			end := j + 60
+			if end > len(p) {
+				end = len(p)
+			}
+			if m := h.re.Find(p[j-len(h.lit) : end]); m != nil {
+				toks = append(toks, string(m))
+				off = j - len(h.lit) + len(m)
+			}
+			break
+		}
+	}
+	return
+}
+
+// parseWrite tokenises the bytes of one Write call that carried (part of) the message `text`. The unit is
+// the Write: whole = it is label, date, time, prefix and the entire message, ending in a newline. Newlines at
+// the end of the message are not compared (the standard logger adds one only when there is none).
 func parseWrite(p []byte, text string) (o observed) {
 	o.Label, o.Pid, o.Cid = "?", -1, -1
-	if len(p) == 0 || p[len(p)-1] != '\n' || bytes.Count(p, []byte{'\n'}) != 1 {
-		o.why = "not exactly one line ending in a newline"
+	if len(p) == 0 || p[len(p)-1] != '\n' {
+		o.why = "does not end in a newline"
 		return
 	}
-	m := lineRe.FindSubmatch(p[:len(p)-1])
+	head := p
+	if len(head) > 64 {
+		head = head[:64]
+	}
+	m := headRe.FindSubmatch(head)
 	if m == nil {
 		o.why = "does not start with '<level label><date> <time> '"
 		return
 	}
 	o.Label = string(m[1])
-	rest := string(m[4])
-	if !strings.HasSuffix(rest, text) {
+	rest := string(bytes.TrimRight(p[len(m[0]):], "\n"))
+	norm := strings.TrimRight(text, "\n")
+	if !strings.HasSuffix(rest, norm) {
 		o.why = "message differs from the one passed"
-		if j := strings.Index(rest, anyTokRe.FindString(text)); j >= 0 && anyTokRe.FindString(text) != "" {
-			rest = rest[:j]
+		if tt := scanTokens([]byte(text), true, true); len(tt) > 0 && strings.Index(rest, tt[0]) >= 0 {
+			rest = rest[:strings.Index(rest, tt[0])]
 		} else {
 			return
 		}
 	} else {
-		rest = rest[:len(rest)-len(text)]
+		rest = rest[:len(rest)-len(norm)]
 	}
-	if m := pidCidRe.FindStringSubmatch(rest); m != nil {
+	cr, pr := pidCidRe, pidRe
+	if norm == "" {
+		cr, pr = pidCidRe0, pidRe0
+	}
+	if m := cr.FindStringSubmatch(rest); m != nil {
 		o.Pid, _ = strconv.Atoi(m[1])
-		o.Cid, _ = strconv.Atoi(m[2])
-	} else if m := pidRe.FindStringSubmatch(rest); m != nil {
+		o.cidS = m[2]
+		o.Cid = cidCode(m[2])
+	} else if m := pr.FindStringSubmatch(rest); m != nil {
 		o.Pid, _ = strconv.Atoi(m[1])
 		o.Cid = 0
 	} else if rest == "" {
 		o.Pid, o.Cid = 0, 0
 	}
-	o.Whole = o.why == "" && strings.Join(anyTokRe.FindAllString(string(p), -1), "") == strings.Join(anyTokRe.FindAllString(text, -1), "")
+	o.Whole = o.why == "" && strings.Join(scanTokens(p, true, true), "") == strings.Join(scanTokens([]byte(text), true, true), "")
 	if o.why == "" && !o.Whole {
 		o.why = "carries the message of more than one call"
 	}
@@ -269,15 +368,79 @@ func verbs(n int) string {
 	return "%v" + strings.Repeat("|%v", n-1)
 }
 
+var filler = strings.Repeat("0123456789abcdefghijklmnopqrstuvwxyzABCDEFGHIJKLMNOPQRSTUVWXYZ-+", 1200) // 76800 bytes
+
+// shapeText: a message text of the given shape (LoggerCid!AllShapes) that starts with the call's token
+func shapeText(rng *rand.Rand, shape, token string) string {
+	a, b, c := token+randText(rng), "b"+randText(rng), "c"+randText(rng)
+	switch shape {
+	case "empty":
+		return ""
+	case "trail1":
+		return a + "\n"
+	case "trail2":
+		return a + "\n\n"
+	case "inner1":
+		return a + "\n" + b
+	case "inner2":
+		return a + "\n" + b + "\n\t" + c
+	case "inner1trail1":
+		return a + "\n" + b + "\n"
+	case "cr":
+		return a + "\r" + b + "\r"
+	case "crlf":
+		return a + "\r\n" + b + "\r\n"
+	case "long4k":
+		return a + filler[:4200+rng.Intn(800)] + b
+	case "long64k":
+		return a + filler[:66000+rng.Intn(4000)] + b
+	case "long64kinner":
+		return a + filler[:40000+rng.Intn(3000)] + "\n" + filler[:30000] + b
+	}
+	rp.Bug("unknown message shape %q", shape)
+	return ""
+}
+
 // doLog performs one logging call with operands written out in the call; returns the message text
-// the line must end with.
-func doLog(rng *rand.Rand, fn string, ctx logger.Context, token string) string {
-	extra := randText(rng)
-	num := rng.Intn(1 << 20)
+// the write must hold after the prefix. A shape other than "plain" arrives in one of three ways: as one
+// operand, written in the format (printf) / as several operands (println), or partly rendered by an
+// error operand.
+func doLog(rng *rand.Rand, fn string, ctx logger.Context, token string, shape string) string {
 	printf := strings.HasSuffix(fn, "f")
 	var format string
 	var a []interface{}
 	var text string
+	if shape != "plain" {
+		t := shapeText(rng, shape, token)
+		how := rng.Intn(3)
+		switch {
+		case t == "":
+			a = []interface{}{}
+		case how == 0:
+			format, a = "%s", []interface{}{t}
+		case how == 1 && printf:
+			format, a = strings.Replace(t, "%", "%%", -1), []interface{}{}
+		case how == 1:
+			// cut behind every newline: the pieces are operands of their own
+			for _, piece := range strings.SplitAfter(t, "\n") {
+				if piece != "" {
+					a = append(a, piece)
+				}
+			}
+		default:
+			h := len(token) + (len(t)-len(token))/2 // never inside the token: println puts a space between operands
+			format, a = "%v%s", []interface{}{errors.New(t[:h]), t[h:]}
+		}
+		if printf {
+			text = fmt.Sprintf(format, a...)
+		} else {
+			text = strings.TrimSuffix(fmt.Sprintln(a...), "\n")
+		}
+		callLog(fn, ctx, format, a)
+		return text
+	}
+	extra := randText(rng)
+	num := rng.Intn(1 << 20)
 	if printf {
 		switch rng.Intn(3) {
 		case 0:
@@ -355,7 +518,8 @@ type worker struct {
 	panic  string
 	bufs   []*opBuf // own operand slices, one per capacity of the run, made when first used
 	nbuf   int
-	shbufs []*opBuf // made by the main goroutine, passed read-only by everybody
+	shbufs []*opBuf   // made by the main goroutine, passed read-only by everybody
+	rec    *recWriter // the main goroutine only: the writer, to see what a call of its own wrote while it is alone
 	probs  []bufProblem
 }
 
@@ -460,29 +624,80 @@ func (w *worker) opAlias() {
 
 var objIDs = []int{1, 7, 999, 1000, 1001, 1002, 1010, 1500, 65536, 2147483647}
 
+// a Cid() value of the given class
+func (w *worker) objID(class string) int {
+	pick := func(v ...int) int { return v[w.rng.Intn(len(v))] }
+	switch class {
+	case "zero":
+		return 0
+	case "minus1":
+		return -1
+	case "negative":
+		return pick(-7, -100, -65536)
+	case "minint32":
+		return math.MinInt32
+	case "maxint32":
+		return pick(math.MaxInt32, math.MaxInt32+1)
+	case "minint64":
+		return math.MinInt64
+	case "maxint64":
+		return pick(math.MaxInt64, 1<<40)
+	case "small":
+		return pick(1, 7, 999)
+	case "librange":
+		return pick(1000, 1001, 1002, 1010, 1500)
+	case "random":
+		return 1 + w.rng.Intn(70000)
+	}
+	rp.Bug("unknown class of object ids %q", class)
+	return 0
+}
+
+func (w *worker) objArg(id int) (logger.Context, argT, int) {
+	code, ok := idCode(id)
+	if !ok {
+		rp.Bug("object id %d has no trace code", id)
+	}
+	return &appConn{id}, argT{K: "obj", I: code}, id
+}
+
 func (w *worker) opLog() { w.opLogHow(w.pickSrc()) }
 
 func (w *worker) opLogHow(how string) {
 	fn := logFns[w.rng.Intn(len(logFns))]
 	var ctx logger.Context
 	var arg argT
+	id := 0
 	r := w.rng.Intn(100)
 	e, have := w.pickCtx()
 	switch {
 	case r < 50 && have:
 		ctx, arg = e.ctx, argT{"ctx", e.name.G, e.name.I}
 	case r < 70:
-		id := objIDs[w.rng.Intn(len(objIDs))]
-		if w.rng.Intn(2) == 0 {
+		if len(w.d.ObjIds) > 0 {
+			id = w.objID(w.d.ObjIds[w.rng.Intn(len(w.d.ObjIds))])
+		} else if id = objIDs[w.rng.Intn(len(objIDs))]; w.rng.Intn(2) == 0 {
 			id = 1 + w.rng.Intn(3000)
 		}
-		ctx, arg = &appConn{id}, argT{K: "obj", I: id}
+		ctx, arg, id = w.objArg(id)
 	case r < 85:
 		ctx, arg = w.bgCtx(), argT{K: "bg"}
 	default:
 		ctx, arg = nil, argT{K: "nil"}
 	}
-	w.logWith(fn, ctx, arg, how)
+	// a worker's message is plain in two calls out of three; long shapes are rarer than the others; an empty
+	// message carries no token: only the main goroutine, while it is alone, logs one
+	shape := "plain"
+	if how == "lit" && len(w.d.Shapes) > 0 && w.rng.Intn(3) == 0 {
+		shape = w.d.Shapes[w.rng.Intn(len(w.d.Shapes))]
+		if strings.HasPrefix(shape, "long") && w.rng.Intn(4) > 0 {
+			shape = w.d.Shapes[w.rng.Intn(len(w.d.Shapes))]
+		}
+		if shape == "empty" {
+			shape = "plain"
+		}
+	}
+	w.logShaped(fn, ctx, arg, id, how, shape)
 }
 
 func (w *worker) pickSrc() string {
@@ -499,13 +714,35 @@ func (w *worker) pickSrc() string {
 	return "shared"
 }
 
-// one logging call, operands passed as `how` says
-func (w *worker) logWith(fn string, ctx logger.Context, arg argT, how string) {
+// one logging call, operands passed as `how` says, message of the given shape (operands written out only)
+func (w *worker) logShaped(fn string, ctx logger.Context, arg argT, id int, how string, shape string) {
+	n0 := 0
+	if w.rec != nil {
+		n0 = w.rec.count()
+	}
+	w.logWith(fn, ctx, arg, how, shape)
+	ev := &w.evs[len(w.evs)-1]
+	ev.objID = id
+	if w.rec != nil { // the main goroutine, alone: what arrived at the writer meanwhile is this call's
+		ev.pos, ev.posFrom, ev.posTo = true, n0, w.rec.count()
+	}
+}
+
+func (w *worker) logWith(fn string, ctx logger.Context, arg argT, how string, shape string) {
 	w.nlog++
 	token := fmt.Sprintf("tok:r%d:g%d:k%d;", w.run, w.g, w.nlog)
-	ev := event{kind: "log", k: w.nlog, level: levelOf(fn), fn: fn, arg: arg, token: token, src: srcT{K: "lit"}, after: []int{}}
+	form := "ln"
+	if strings.HasSuffix(fn, "f") {
+		form = "f"
+	}
+	ev := event{kind: "log", k: w.nlog, level: levelOf(fn), fn: fn, arg: arg, token: token, src: srcT{K: "lit"}, after: []int{},
+		m: formT{form, "plain"}}
 	if how == "lit" {
-		ev.text = doLog(w.rng, fn, ctx, token)
+		ev.m.Shape = shape
+		ev.text = doLog(w.rng, fn, ctx, token, shape)
+		if shape == "empty" {
+			ev.token = ""
+		}
 		w.evs = append(w.evs, ev)
 		return
 	}
@@ -721,6 +958,35 @@ func oneRun(c *rp.Ctx, run int, raw json.RawMessage, rr *raceReader, dir string)
 			mainW.shbufs = append(mainW.shbufs, mainW.newBuf(c, true))
 		}
 	}
+	// every message shape through both call forms, every class of object id through both call forms and the
+	// same object: one call after the other, routed levels
+	mainW.rec = rec
+	lnFns, fFns := []string{"T", "W", "E", "Trace.Println", "Warn.Println", "Error.Println"}, []string{"Tf", "Wf", "Ef", "Trace.Printf", "Warn.Printf", "Error.Printf"}
+	for _, shape := range d.Shapes {
+		for _, fns := range [][]string{lnFns, fFns} {
+			var ctx logger.Context
+			var arg argT
+			id := 0
+			e, have := mainW.pickCtx()
+			switch r := mainW.rng.Intn(4); {
+			case r == 0 && have:
+				ctx, arg = e.ctx, argT{"ctx", e.name.G, e.name.I}
+			case r <= 1:
+				ctx, arg, id = mainW.objArg(mainW.objID("random"))
+			case r == 2:
+				ctx, arg = mainW.bgCtx(), argT{K: "bg"}
+			default:
+				ctx, arg = nil, argT{K: "nil"}
+			}
+			mainW.logShaped(fns[mainW.rng.Intn(len(fns))], ctx, arg, id, "lit", shape)
+		}
+	}
+	for _, class := range d.ObjIds {
+		ctx, arg, id := mainW.objArg(mainW.objID(class))
+		for _, fns := range [][]string{lnFns, fFns} {
+			mainW.logShaped(fns[mainW.rng.Intn(len(fns))], ctx, arg, id, "lit", "plain")
+		}
+	}
 	if len(d.Caps) > 0 && d.Opnd.Own+d.Opnd.Shared > 0 {
 		for i := 0; i < 4*len(d.Caps); i++ {
 			how := "own"
@@ -739,6 +1005,7 @@ func oneRun(c *rp.Ctx, run int, raw json.RawMessage, rr *raceReader, dir string)
 		wg.Add(1)
 		go ws[g].body(start, &wg)
 	}
+	mainW.rec = nil // from here on it is not alone
 	close(start)
 	wg.Wait()
 
@@ -764,6 +1031,7 @@ func oneRun(c *rp.Ctx, run int, raw json.RawMessage, rr *raceReader, dir string)
 	// tokenise the writes
 	type ref struct{ g, idx int }
 	byTok := map[string]ref{}
+	var byPos []ref             // calls of the main goroutine while it was alone, in order: they know which writes are theirs
 	byShr := map[string][]ref{} // token of a shared slice -> the calls that have no token of their own, in program order
 	nNew, nAlias, nLog, nRouted, nBuf, nWin := 0, 0, 0, 0, 0, 0
 	for g, w := range ws {
@@ -784,8 +1052,13 @@ func oneRun(c *rp.Ctx, run int, raw json.RawMessage, rr *raceReader, dir string)
 			case "log":
 				if w.evs[i].token != "" {
 					byTok[w.evs[i].token] = ref{g, i}
-				} else {
+				} else if w.evs[i].shr != "" {
 					byShr[w.evs[i].shr] = append(byShr[w.evs[i].shr], ref{g, i})
+				} else if !w.evs[i].pos {
+					rp.Bug("a call without a token that was not made by the main goroutine alone")
+				}
+				if w.evs[i].pos {
+					byPos = append(byPos, ref{g, i})
 				}
 				if w.evs[i].src.K == "win" {
 					nWin++
@@ -806,7 +1079,7 @@ func oneRun(c *rp.Ctx, run int, raw json.RawMessage, rr *raceReader, dir string)
 	orphan := make([]bool, len(writes))
 	var tokenless []int // writes that carry no token of a call
 	for n, p := range writes {
-		toks := tokRe.FindAllString(string(p), -1)
+		toks := scanTokens(p, true, false)
 		known := 0
 		for _, t := range toks {
 			if r, ok := byTok[t]; ok {
@@ -873,8 +1146,20 @@ func oneRun(c *rp.Ctx, run int, raw json.RawMessage, rr *raceReader, dir string)
 	}
 	for _, n := range tokenless {
 		p := writes[n]
+		// made while the main goroutine was alone: the call that was running (an empty message has no token,
+		// nor has a piece of a message that was not written whole)
+		if k := sort.Search(len(byPos), func(k int) bool { return ws[byPos[k].g].evs[byPos[k].idx].posTo > n }); k < len(byPos) {
+			r := byPos[k]
+			if ev := &ws[r.g].evs[r.idx]; ev.posFrom <= n {
+				o := parseWrite(p, ev.text)
+				o.idx = n
+				ev.w = append(ev.w, o)
+				firstRef[n] = &r
+				continue
+			}
+		}
 		var cands []ref
-		for _, t := range shrRe.FindAllString(string(p), -1) {
+		for _, t := range scanTokens(p, false, true) {
 			if cands = byShr[t]; cands != nil {
 				break
 			}
@@ -921,6 +1206,9 @@ func oneRun(c *rp.Ctx, run int, raw json.RawMessage, rr *raceReader, dir string)
 				continue
 			}
 			call := fmt.Sprintf("goroutine %d call %d logger.%s(%s ctx)", w.g, ev.k, ev.fn, ev.arg.K)
+			if ev.m.Shape != "plain" {
+				call += fmt.Sprintf(" with a message of shape %q (%d bytes)", ev.m.Shape, len(ev.text))
+			}
 			if ev.src.K == "win" {
 				call = fmt.Sprintf("goroutine %d call %d logger.%s(%s ctx, back[:%d]...) with operand slice %v (cap %d)", w.g, ev.k, ev.fn, ev.arg.K, ev.src.N, ev.src.B, len(ev.buf.want))
 			}
@@ -948,9 +1236,12 @@ func oneRun(c *rp.Ctx, run int, raw json.RawMessage, rr *raceReader, dir string)
 			case "obj":
 				if o.Pid == pid && o.Cid == 0 {
 					// what the specification names ObjCid = FALSE
-					badAs("C18/obj-cid-dropped", "%s: prefix is '[%d]' as for a nil context, want '[%d][%d]' (the object's Cid()): %q", call, pid, pid, ev.arg.I, line)
+					badAs("C18/obj-cid-dropped", "%s: prefix is '[%d]' as for a nil context, want '[%d][%d]' (the object's Cid()): %q", call, pid, pid, ev.objID, line)
+				} else if o.Pid == pid && ev.objID < 0 && o.cidS == strconv.FormatUint(uint64(ev.objID), 10) {
+					// what the specification names SignedCid = FALSE
+					badAs("C18/obj-cid-unsigned", "%s: prefix is '[%d][%s]', the object's Cid() %d printed as an unsigned number, want '[%d][%d]': %q", call, pid, o.cidS, ev.objID, pid, ev.objID, line)
 				} else if o.Pid != pid || o.Cid != ev.arg.I {
-					bad("%s: prefix is not '[%d][%d]' (the object's Cid()): %q", call, pid, ev.arg.I, line)
+					bad("%s: prefix is not '[%d][%d]' (the object's Cid()): %q", call, pid, ev.objID, line)
 				}
 			case "ctx":
 				want := ids[ctxName{ev.arg.G, ev.arg.I}]
@@ -982,7 +1273,7 @@ func oneRun(c *rp.Ctx, run int, raw json.RawMessage, rr *raceReader, dir string)
 					obs = []observed{}
 				}
 				tr = append(tr, traceLine{"e": "log", "g": g, "k": ev.k, "level": ev.level, "arg": ev.arg, "w": obs, "fn": ev.fn,
-					"src": ev.src, "after": ev.after})
+					"src": ev.src, "after": ev.after, "m": ev.m})
 			}
 		}
 	}
